@@ -82,3 +82,6 @@ func BytesOf32(h [32]byte) []byte { return nil }
 
 // SQLKind classifies a constant SQL statement text (see sqlmodel.go).
 func SQLKind(query string) int { return 0 }
+
+// Deadlocked reports whether RunThreads ended with unfinished threads and none runnable.
+func Deadlocked() bool { return false }
